@@ -683,7 +683,9 @@ def gen_c12_pair(r):
     hashes = r.choice(PT.HASHSETS)
     wm = r.choice([None, None, 0, 60, 200, 100000])
     fmt = r.choice([None, 'gz', 'bz2', 'xz', 'lzma'])
-    a.opts = (hashes, True, wm, fmt, 'default', None, None, False)
+    # a third of the pairs are written signed (stand-in signer): the signed text is sorted like the plain one
+    sign = True if (len(files) + len(written)) % 3 == 0 else None
+    a.opts = (hashes, True, wm, fmt, 'default', sign, None, False)
     a.ops = [['update', '', [], []], ['save', [], 1, [], [], []], ['files']]
     a.meta['order_seed'] = 0
     a.tree.hardlinks = True
